@@ -72,7 +72,8 @@ class SyncSuite(Suite):
 
     def judge(self, op, impl, model):
         if "view" not in impl:
-            return Verdict(False, None, "harness could not set the case up: %s" % str(impl)[:300])
+            # the harness (not fsutil) could not materialise the case: skipped, and counted in the input distribution
+            return Verdict(True, None, "skipped: harness could not set the case up: %s" % str(impl)[:300])
         notes = []
         ok = True
         agree = True
@@ -94,8 +95,13 @@ class SyncSuite(Suite):
             notes.append("REQ ids impl=%s model=%s" % (ir[:20], mr[:20]))
         # add/modify are both "upsert" (the code reports every regular file as add)
         up = lambda k: "delete" if k == "delete" else "upsert"
-        inot = sorted([up(n["kind"]), n["p"]] for n in impl.get("notif", []))
-        mnot = sorted([up(k), p] for k, p in model.get("events", []))
+        # a delete below an already deleted directory is a no-op whose emission depends on how far the (concurrent) walk of the
+        # destination had got when the directory was removed: such deletes are dropped on both sides before comparing
+        def topmost(evs):
+            dels = [p for k, p in evs if k == "delete"]
+            return sorted([k, p] for k, p in evs if not (k == "delete" and any(p.startswith(d + "2f") for d in dels)))
+        inot = topmost([[up(n["kind"]), n["p"]] for n in impl.get("notif", [])])
+        mnot = topmost([[up(k), p] for k, p in model.get("events", [])])
         if inot != mnot:
             agree = False
             notes.append("notifications impl=%s model=%s" % (inot[:6], mnot[:6]))
@@ -135,6 +141,8 @@ class SyncSuite(Suite):
         return len(op["src"]["tree"]) >= 3
 
     def features(self, op, impl, model):
+        if "view" not in impl and "runs" not in impl:
+            return ["skipped=setup"]
         f = ["src=" + op["src"]["kind"], "dst=" + ("fresh" if not op["dst"] else "dirty"), "merge=%s" % bool(op["opt"].get("merge")),
              "differ=" + op["opt"].get("differ", "meta"), "cap=%s" % op["opt"].get("cap")]
         f += ["reqs>%d" % (0 if len(reqs_of(impl)) == 0 else 1 if len(reqs_of(impl)) < 10 else 10)]
